@@ -2,8 +2,9 @@
    A case = (staged files, committed pre-history, program, hard-fault flag, observed sequence); the observed sequence is
    the list of final observations of the implementation for the fault at boundary 0, 1, 2, ... with consecutive
    duplicates collapsed, followed by the fault-free run.  The model is run for fuse = 0, 1, ... until the fuse no
-   longer fires and its observations are collapsed the same way (granularity of boundaries is therefore free;
-   ORDER and CONTENT of the distinct observable results are compared). *)
+   longer fires and its observations, followed by the fault-free one, are collapsed the same way (granularity of
+   boundaries is therefore free -- an operation that only reads may have boundaries on one side and none on the
+   other; ORDER and CONTENT of the distinct observable results are compared). *)
 From Coq Require Import NArith List Bool.
 From V Require Import Model.Txn.
 Import ListNotations.
@@ -57,7 +58,7 @@ Fixpoint sweep (n : nat) (e : files) (pre : list prog) (p : prog) (h : bool) (j 
   end.
 
 Definition model_seq (e : files) (pre : list prog) (p : prog) (h : bool) : list (list (list N)) :=
-  compress (sweep 400 e pre p h 0) ++ [fst (final e pre p h None)].
+  compress (sweep 400 e pre p h 0 ++ [fst (final e pre p h None)]).
 
 Definition case := (files * list prog * prog * bool * list (list (list N)))%type.
 
